@@ -572,6 +572,20 @@ pub open spec fn join_spec(v: Seq<String>, sep: Seq<char>) -> Seq<char>
 }
 pub trait VxJoinStrings { fn vx_join(&self, sep: &str) -> (r: String); }
 impl VxJoinStrings for Vec<String> { #[verifier::external_body] fn vx_join(&self, sep: &str) -> (r: String) ensures r@ == join_spec(self@, sep@) { self.join(sep) } }
+/// `format!("{:C<N}", s)` (left = text first) / `format!("{:C>N}", s)` of a string: the fill character is added until the
+/// text is N characters wide; a text that is already that wide is printed unchanged (core::fmt width and fill)
+pub open spec fn fill_spec(c: char, n: int) -> Seq<char> { Seq::new(if n > 0 { n as nat } else { 0 }, |i: int| c) }
+pub open spec fn pad_spec(s: Seq<char>, c: char, left: bool, n: int) -> Seq<char> {
+    if s.len() >= n { s } else if left { s + fill_spec(c, n - s.len()) } else { fill_spec(c, n - s.len()) + s }
+}
+#[verifier::external_body]
+pub fn str_pad(s: &str, c: char, left: bool, n: usize) -> (r: String)
+    ensures r@ == pad_spec(s@, c, left, n as int)
+{
+    let k = s.chars().count();
+    let fill: String = std::iter::repeat(c).take(n.saturating_sub(k)).collect();
+    if left { format!("{}{}", s, fill) } else { format!("{}{}", fill, s) }
+}
 /// `format!("{SPEC}", x)` for a format spec whose rendering is not modelled ({:03}, {:.2}, ...): some string
 #[verifier::external_body]
 pub fn fmt_opaque<T>(spec: &str, x: &T) -> (r: String) { unimplemented!() }
